@@ -541,6 +541,64 @@ pub fn decode_inputs(tier: Tier) -> Vec<ByteFamily> {
     fams.push(concatenations(tier));
     // (8) resynchronisation: junk ++ message-with-storage-header, every truncation; d=1 on a subset
     fams.extend(resync_families(tier));
+    // (8b) long junk: lengths around every power of two, around multiples of 10 KiB and around 64 KiB
+    {
+        let mut lens: Vec<usize> = vec![];
+        for k in 8..=17u32 {
+            for d in -4i64..=4 {
+                lens.push(((1i64 << k) + d) as usize);
+            }
+        }
+        for m in 1..=13usize {
+            for d in 0..8usize {
+                lens.push(m * 10_240 - 4 + d);
+            }
+        }
+        for x in 65_520..=65_580usize {
+            lens.push(x);
+        }
+        lens.extend([1000usize, 5000, 70_000, 100_000, 200_000]);
+        lens.sort_unstable();
+        lens.dedup();
+        let msg = enc(&msg_with(0x04, 1, Some(ext(MSTP_LOG, 4, "APP", "CTX")), payload_for(true, Some(MSTP_LOG), 2), Some(storage(1, 2, "ECU"))));
+        let n = lens.len() as u64;
+        fams.push(ByteFamily {
+            name: "resync.long_junk".into(),
+            about: format!("{} junk lengths (2^k-4..2^k+4 for k=8..17, around every multiple of 10 KiB, 65520..=65580, 1000, 5000, 70000, 100000, 200000) x junk fill {{00, 'D', 'DLT' repeated}} in front of two storage-header messages", n),
+            size: n * 3,
+            gen: Box::new(move |i| {
+                let l = lens[(i / 3) as usize];
+                let mut b: Vec<u8> = match i % 3 {
+                    0 => vec![0u8; l],
+                    1 => vec![b'D'; l],
+                    _ => b"DLT".iter().cycle().take(l).cloned().collect(),
+                };
+                b.extend_from_slice(&msg);
+                b.extend_from_slice(&msg);
+                b
+            }),
+        });
+    }
+    // (8c) messages that carry the storage pattern as content, followed by more data
+    {
+        let n = embedded_pattern_positions() as u64;
+        let next = enc(&msg_with(0x04, 1, Some(ext(MSTP_LOG, 4, "NXT", "MSG")), payload_for(true, Some(MSTP_LOG), 2), Some(storage(9, 9, "NX"))));
+        let tails: Vec<Vec<u8>> = vec![b"XXXX".to_vec(), vec![0u8; 20], next.clone(), next[16..].to_vec(), b"DLT".to_vec(), b"DLS\x01abcdefgh".to_vec()];
+        let nt = tails.len() as u64;
+        fams.push(ByteFamily {
+            name: "embedded_pattern.followed".into(),
+            about: "every message of u.embedded_pattern (storage pattern as content) x byte order x storage header, followed by {'XXXX', 20 zero bytes, a stored message, an unstored message, 'DLT', 'DLS\\x01abcdefgh'}".into(),
+            size: n * 4 * nt,
+            gen: Box::new(move |i| {
+                let t = &tails[(i % nt) as usize];
+                let j = i / nt;
+                let m = embedded_pattern_message((j / 4) as usize, j % 2 == 1, if (j / 2) % 2 == 1 { Some(storage(0x0102_0304, 5, "STOR")) } else { None }, b"DLT\x01", "DLT\u{1}");
+                let mut b = enc(&m);
+                b.extend_from_slice(t);
+                b
+            }),
+        });
+    }
     fams
 }
 
@@ -673,4 +731,63 @@ pub fn variant(b: Vec<u8>, v: u64) -> (Vec<u8>, bool) {
             (x, true)
         }
     }
+}
+
+
+// ---------------------------------------------------------------------------------------------
+// (9) header-prefix sweep: every (HTYP, MCNT, LEN high byte) x a set of LEN low bytes in front of
+// a fixed 64 KiB body, so that every declared length is backed by enough data.  The body is
+// '20 20 20 00' repeated: whatever header flags HTYP announces, the optional fields and the extended header decode
+// to a non-verbose log message with ids of four blanks.  Buffers are thread-local and shared
+// between cases (only the first 4 bytes change).
+// ---------------------------------------------------------------------------------------------
+pub fn prefix_sweep_lows(tier: Tier) -> Vec<u8> {
+    match tier {
+        Tier::Quick => vec![0x01],
+        Tier::Thorough => vec![0x01, 0x00, 0x02, 0x10, 0x7F, 0x80, 0xFE, 0xFF],
+    }
+}
+/// number of LEN high bytes swept
+pub fn prefix_sweep_highs(tier: Tier) -> u64 {
+    match tier {
+        Tier::Quick => 256,
+        Tier::Thorough => 256,
+    }
+}
+pub fn prefix_sweep_size(tier: Tier) -> u64 {
+    65_536 * prefix_sweep_highs(tier) * prefix_sweep_lows(tier).len() as u64 * 2
+}
+pub const PREFIX_SWEEP_ABOUT: &str = "header-prefix sweep: ALL combinations of (HTYP, MCNT, LEN high byte: all 2^24) x LEN low byte in a fixed set, in front of a fixed 64 KiB body of '20 20 20 00' repeated (every declared length is backed by data; every optional field and the extended header decode to a non-verbose message) x {no storage header, storage header prepended}";
+thread_local! {
+    static PREFIX_BUF: std::cell::RefCell<(Vec<u8>, Vec<u8>)> = std::cell::RefCell::new((vec![], vec![]));
+}
+/// Run `f(input, with_storage, case identity)` on case `i` of the sweep.
+pub fn with_prefix_sweep_case<R>(i: u64, tier: Tier, lows: &[u8], f: impl FnOnce(&[u8], bool) -> R) -> R {
+    let storage = i % 2 == 1;
+    let j = i / 2;
+    let highs = prefix_sweep_highs(tier);
+    let hm = (j % 65_536) as u32;
+    let hi = ((j / 65_536) % highs) as u8;
+    let low = lows[(j / 65_536 / highs) as usize];
+    let hdr = [(hm >> 8) as u8, hm as u8, hi, low];
+    PREFIX_BUF.with(|b| {
+        let mut b = b.borrow_mut();
+        if b.0.is_empty() {
+            // 20 20 20 00 repeated: every 4-byte id window contains a NUL (nom's take_while_m_n
+            // scans the whole rest of the buffer for the first NUL, so a NUL-free body would make
+            // every id field cost O(buffer))
+            let body = |n: usize| (0..n).map(|k| if k % 4 == 3 { 0x00u8 } else { 0x20 });
+            b.0 = body(65_535 + 40).collect();
+            let mut s = STORAGE_PREFIX.to_vec();
+            s.extend(body(65_535 + 40));
+            b.1 = s;
+        }
+        if storage {
+            b.1[16..20].copy_from_slice(&hdr);
+            f(&b.1, true)
+        } else {
+            b.0[..4].copy_from_slice(&hdr);
+            f(&b.0, false)
+        }
+    })
 }
